@@ -57,7 +57,7 @@ func checkC08(cx *Ctx, r *Report) {
 	cx.checkProviderFromStorage(r, kSSO)
 	cx.checkStorageIsTheApplications(r)
 	r.Clauses = []string{
-		"persist last, once: Storage.CreateAuthRequest has exactly one call site in the SSO handler's scope, inside the last step of the chain; no error callback, no earlier step and nothing after the chain can persist",
+		"persist last, once: Storage.CreateAuthRequest has exactly one call site in the SSO handler's scope, inside the last step of the chain; no error callback, no earlier step and nothing after the chain can persist; a failure of the storage call is the failure of the step (tested or handed on in every function on the way, never replaced by a deferred assignment)",
 		"unanswerable requests are rejected before persistence: the supported-binding decision is a step in front of the persist step, and after the chain the only possible outcome is the 303 redirect to the login URL of the identifier storage returned",
 		"a page is not cut short by its data: each substitution of the two auto-submit templates is a plain string field of the struct handed to Execute (no method, function or pipeline that could return an error while the page is being streamed), so rendering cannot stop half-way and be followed by an error text in the same reply",
 		"exactly one reply: every error callback of the SSO chain, the handler's own exits, sendBackResponse and sendBackLogoutResponse perform exactly one effective reply act on every path (none = empty reply, two = concatenated replies)",
@@ -94,6 +94,11 @@ func checkC08(cx *Ctx, r *Report) {
 				r.Ok("R-ORDER", "sso:persist-last", w.InstrPos(pc), fmt.Sprintf("single CreateAuthRequest site, in the last of %d steps", len(ch.Steps)))
 			}
 		}
+	}
+	// "persisted and redirected, or nothing persisted and a failure reply": when the storage call fails the persist step
+	// fails - its error is tested or handed on in every function between the call and the step's verdict (R-ERR)
+	if k.persist != nil {
+		cx.checkErrDiscipline(r, w.sortedFuncs(k.persist.Scope))
 	}
 	// no redirect-to-login / success effect before or beside the chain
 	for _, s := range ch.Steps {
